@@ -138,6 +138,27 @@ pub fn hostile_px(rng: &mut Rng) -> [f32; 3] {
     [hostile(rng).0, hostile(rng).0, hostile(rng).0]
 }
 
+/// a pixel whose components are algebraically related (equal, complementary, multiples, sums), scaled into [0, hi]
+pub fn related_px(rng: &mut Rng, hi: f64) -> [f32; 3] {
+    let a = rng.unit();
+    let b = rng.unit();
+    let p = match rng.below(12) {
+        0 => [a, a, b],
+        1 => [a, b, a],
+        2 => [b, a, a],
+        3 => [a, 1.0 - a, b],
+        4 => [a, b, 1.0 - b],
+        5 => [a, a / 2.0, a / 4.0],
+        6 => [a / 4.0, a / 2.0, a],
+        7 => [a, b, (a + b) / 2.0],
+        8 => [a, b, a * b],
+        9 => [a, 1.0 - a, 1.0 - a],
+        10 => [a, (a + 1e-6).min(1.0), (a - 1e-6).max(0.0)],
+        _ => [a, b, (a - b).abs()],
+    };
+    [(p[0] * hi) as f32, (p[1] * hi) as f32, (p[2] * hi) as f32]
+}
+
 /// classify a float for the "what was fed" histograms
 pub fn fclass(v: f32) -> usize {
     if v.is_nan() {
